@@ -197,6 +197,36 @@ func init() {
 		}
 		return iface{t: ifc.t, v: cp}
 	}
+	// sync/atomic on the single interpreted goroutine: plain loads, stores and updates of the cell
+	for _, k := range []struct {
+		name string
+		typ  types.Type
+	}{{"Int32", types.Typ[types.Int32]}, {"Int64", types.Typ[types.Int64]}, {"Uint32", types.Typ[types.Uint32]}, {"Uint64", types.Typ[types.Uint64]}, {"Uintptr", types.Typ[types.Uintptr]}, {"Pointer", types.Typ[types.UnsafePointer]}} {
+		k := k
+		in["sync/atomic.Load"+k.name] = func(fr *frame, a []value) value { return *a[0].(*value) }
+		in["sync/atomic.Store"+k.name] = func(fr *frame, a []value) value { *a[0].(*value) = a[1]; return nil }
+		in["sync/atomic.Swap"+k.name] = func(fr *frame, a []value) value {
+			p := a[0].(*value)
+			old := *p
+			*p = a[1]
+			return old
+		}
+		in["sync/atomic.CompareAndSwap"+k.name] = func(fr *frame, a []value) value {
+			p := a[0].(*value)
+			if equals(k.typ, *p, a[1]) {
+				*p = a[2]
+				return true
+			}
+			return false
+		}
+		if k.name != "Pointer" {
+			in["sync/atomic.Add"+k.name] = func(fr *frame, a []value) value {
+				p := a[0].(*value)
+				*p = binop(token.ADD, k.typ, *p, a[1])
+				return *p
+			}
+		}
+	}
 	in[rtPrefix+"Reps"] = func(fr *frame, a []value) value { return 1 }
 	in[rtPrefix+"MapOrder"] = func(fr *frame, a []value) value {
 		name, _ := argStr(a[0])
